@@ -144,7 +144,7 @@ func runC17(c *vf.Ctx) {
 	if !c.Active(sub) {
 		return
 	}
-	n := c.N(150000, 4000000)
+	n := c.N(150000, 10000000)
 	// a pool of provider identities with addresses
 	pool := make([]peer.AddrInfo, 6)
 	for k := range pool {
